@@ -49,6 +49,13 @@ Definition step_spec (g : cfg) (p : snap) (l : label) (o : list out) (sn : snap)
    | _ => negb (has_close o)
    end).
 
+(* connect with more server-side subscriptions than the limit disconnects with 3505; otherwise
+   the connection starts with exactly those *)
+Definition connect_spec (g : cfg) (subs : list N) (o : list out) (sn : snap) : bool :=
+  if (0 <? g_limit g) && (g_limit g <? N.of_nat (length subs))
+  then outs_eqb o [OClose 3505] && sn_closed sn
+  else outs_eqb o [] && negb (sn_closed sn) && (sn_held sn =? N.of_nat (length subs)).
+
 Fixpoint steps_spec (g : cfg) (p : snap) (ls : list label) (os : list (list out)) (sns : list snap) : bool :=
   match ls, os, sns with
   | [], [], [] => true
